@@ -74,10 +74,15 @@ def gen_run(rnd, kind=None, tune=None, thin=None, maxP=10, special=None, integ=N
         cfg["randomize"] = rnd.random() < 0.5
         cfg["factors"] = [0.5 + rnd.randint(0, 64) / 64.0 for _ in range(P)]
         cfg["invdiag"] = [rnd.choice([1.0, 0.5, 2.0, 0.25]) for _ in range(d)]
-    if rnd.random() < 0.15:
+    form = rnd.random()
+    if form < 0.15:
         # a starting model given as an integer array (whole numbers)
         cfg["m0"] = [float(round(v)) for v in cfg["m0"]]
         cfg["m0_dtype"] = "int"
+    elif form < 0.25:
+        cfg["m0_dtype"] = "readonly"          # the caller's array must only be read
+    elif form < 0.35:
+        cfg["m0_dtype"] = "view"              # a strided view into a larger array of the caller
     return cfg
 
 
@@ -176,7 +181,17 @@ def run_impl(cfg, workdir, sampler_hook=None, reuse=None, tag="run"):
             S.RWMH(seed=sd["seed"]).sample(fname, hmclab.Distributions.Normal(numpy.zeros((sd["d"], 1)), numpy.ones((sd["d"], 1))),
                                            proposals=sd["P"], online_thinning=sd["t"], overwrite_existing_file=True, disable_progressbar=True)
         numpy.seterr(all="warn")
-    kwargs = dict(initial_model=(m0.astype(int) if cfg.get("m0_dtype") == "int" else m0.copy()), proposals=cfg["P"], online_thinning=cfg["t"],
+    im = m0.copy()
+    r.m0_backing = None
+    if cfg.get("m0_dtype") == "int":
+        im = m0.astype(int)
+    elif cfg.get("m0_dtype") == "readonly":
+        im.setflags(write=False)
+    elif cfg.get("m0_dtype") == "view":
+        r.m0_backing = numpy.zeros((2 * d, 2))
+        r.m0_backing[::2, 1] = m0[:, 0]
+        im = r.m0_backing[::2, 1:2]
+    kwargs = dict(initial_model=im, proposals=cfg["P"], online_thinning=cfg["t"],
                   overwrite_existing_file=True, autotuning=cfg["tune"], target_acceptance_rate=cfg["target"],
                   learning_rate=cfg["lr"], disable_progressbar=True)
     if cfg["kind"] == "rwmh":
@@ -212,6 +227,11 @@ def run_impl(cfg, workdir, sampler_hook=None, reuse=None, tag="run"):
         S._numpy = old_np
         S._time = old_time
         numpy.seterr(all="warn")
+    if r.exception is None and r.m0_backing is not None:
+        expect = numpy.zeros((2 * d, 2))
+        expect[::2, 1] = m0[:, 0]
+        if not numpy.array_equal(r.m0_backing, expect):
+            r.exception = AssertionError("sample() modified the array that holds the caller's initial model")
     r.cp = sampler.current_proposal
     r.acc = sampler.accepted_proposals
     r.cur = col(sampler.current_model)
